@@ -10,6 +10,7 @@ import DdnnfVerif.Proofs.Keystone
 import DdnnfVerif.Proofs.LoadSem
 import DdnnfVerif.Proofs.LoadWF2_14
 import DdnnfVerif.Proofs.D4Conv
+import DdnnfVerif.Proofs.Lex
 namespace Ddnnf.C01
 
 /-- The reported count (`Ddnnf::rc()` = count of the last node) is the number of assignments to
@@ -142,5 +143,18 @@ theorem d4_conventions_check_gives_the_count (lines : List D4.Line) (total : Nat
       ((allBits (D4.load lines total).1).filter fun b =>
         D4.evalB (assignOf b) (D4.phase1B lines total).g ((D4.phase1B lines total).g.kind.size + 1) 0).length :=
   D4.conventionsB_count lines total h
+
+/-! ### character level: the d4 lexer (Model/Lex.lean)
+
+`Lex.lexD4` models `lex_line_d4` on the characters of a line (edge = at least two `number blanks` groups
+followed by `0`, greedy and without backtracking; node lines by keyword). The loader theorems above speak
+about `List D4.Line`; a d4 text in normal form is exactly such a list: -/
+
+/-- a d4 text in normal form (what d4 writes, what the harness generates) lexes, character by character,
+to the list of lines it denotes (node numbers and literals within i32, node numbers ≥ 1) -/
+theorem d4_text_in_normal_form_lexes_to_its_lines (ls : List (D4.Line × Nat))
+    (h : ∀ p ∈ ls, Lex.LineInRange p.1) :
+    Lex.parseD4Text (ls.map fun p => Lex.renderD4 p.1 p.2) = some (ls.map (·.1)) :=
+  Lex.parseD4Text_render ls h
 
 end Ddnnf.C01
